@@ -25,8 +25,21 @@ LEVEL_TEXT = ("Theorems (Coq, over the reals, for all inputs): exactness on ever
               "C03_reentrant_inner; checked on the library by running nested requests and repeating every inner request outside the outer call). The 4*epsilon error bound is a theorem at full strength (C03_error_bound): for every integrand with four derivatives "
               "on an open interval containing the range whose fourth derivative keeps one sign and varies by at most a factor four, every "
               "depth and epsilon, whenever no non-convergence warning is raised; the remainder of Simpson's rule it rests on is proved "
-              "(C03_simpson_remainder), not assumed. Not theorems: 'to rounding' / 'plus rounding' (the theorems are about exact real "
-              "arithmetic), and the case of a raised warning (forced leaf), where no bound in epsilon is claimed. For doubles the Gallina "
+              "(C03_simpson_remainder), not assumed. The case of a raised warning (a panel forced by the depth limit) is covered by theorems too "
+              "(coq/C03_Proofs_Post.v, same regularity premises, over the reals): for EVERY depth and epsilon, warning or not, "
+              "|value - integral| <= 4|eps| + |b-a|^5 m / (14400 * 16^depth) with m the lower bound of |f4| (fourth derivative) (C03_error_bound_any_depth; with eps = 0 the "
+              "convergence rate in the depth; evaluated on the library's answers that carry the warning as int:error-bound-forced with max|f4| (fourth derivative) in place of m); "
+              "when |b-a|^5 m <= 10800 |eps| 16^depth no warning can be raised and the 4|eps| bound holds unconditionally "
+              "(C03_sufficient_depth_no_warning; evaluated on the library as :warning-unjustified - a warning on a request whose depth suffices by this criterion, "
+              "with a-priori rounding slack, is a violation); the clause read literally, without the proviso about the warning, is false of the rule as coded "
+              "(C03_error_bound_without_warning_refuted: x^6 on [1,2], epsilon 1e-6, depth 0, error 1/2688; replayed on the library, which prints its warning); "
+              "for a fourth derivative varying by a factor r, 1 <= r < 16, the bound without warning is 16(r-1)/(16-r)|eps| (C03_error_bound_general_ratio; "
+              "r = 4 is the property's clause); a-posteriori the error is at most 4/15 of the sum of the discrepancies |S2-S| of the final panels "
+              "(C03_error_bound_posterior); for every integrand the warning is raised exactly when some panel of width |b-a|/2^depth reached with "
+              "the depth exhausted fails the test against 15|eps|/2^depth (C03_warning_iff_forced_failure); for every integrand no abscissa is "
+              "evaluated twice (C03_eval_points_distinct; evaluated on the library's traces as :distinct); Find_Epsilon is precision times the "
+              "integral on cubics and antisymmetric in the limits (C03_find_epsilon). Not theorems: 'to rounding' / 'plus rounding' (the theorems are about exact real "
+              "arithmetic). For doubles the Gallina "
               "model is the term that is extracted and run against the C++ code on every run (value, warning flag, evaluation count and the "
               "multiset of abscissae, bit for bit), and every clause is also evaluated on the implementation's output (S4) with a-priori "
               "rounding slack. "
@@ -63,7 +76,8 @@ TRUSTED = ["calls of the other methods of the string overload (Trapezoidal, Gaus
            "integrator itself the harness reads and then discards what the inner call printed, so that only the outer call's warning remains",
            "a nested request whose outer integrand is evaluated more than 256 times beyond the bound of the property is stopped by the harness "
            "(exception thrown by the integrand) and reported with the count reached"]
-ASSUMPTIONS = ["the 4*eps clause is read as applying when Integrate raises no non-convergence warning (with a forced leaf no bound in terms of eps can hold)"]
+ASSUMPTIONS = ["the 4*eps clause is read as applying when Integrate raises no non-convergence warning (with a forced leaf no bound in terms of eps alone can hold; "
+               "what holds then is C03_error_bound_any_depth: 4|eps| + |b-a|^5 m / (14400 16^depth))"]
 
 
 # ---------------------------------------------------------------- fexpr evaluation in Python (independent of harness / model)
@@ -1139,6 +1153,26 @@ def analytic(fam, p, a, b):
     return None
 
 
+def f4max(fam, p, a, b):
+    """max |f4| (fourth derivative) on [a,b] (a<b) for the estimator-regular families: |f4| is monotone (cosh: symmetric about s), so the maximum is at an end"""
+    try:
+        if fam == "exp":
+            w = p[0]; s = p[1] if len(p) > 1 else 0.0
+            return w ** 4 * max(math.exp(w * (a - s)), math.exp(w * (b - s)))
+        if fam == "cosh":
+            w = p[0]; s = p[1] if len(p) > 1 else 0.0
+            return w ** 4 * math.cosh(w * max(abs(a - s), abs(b - s)))
+        if fam == "invpow":
+            s, k = p; c = abs(k * (k + 1) * (k + 2) * (k + 3))
+            return c * max((a + s) ** (-k - 4), (b + s) ** (-k - 4))
+        if fam == "pow":
+            q = p[0]; c = abs(q * (q - 1) * (q - 2) * (q - 3))
+            return c * max(a ** (q - 4), b ** (q - 4))
+    except (OverflowError, ZeroDivisionError, ValueError):
+        pass
+    return math.nan
+
+
 def value_preds(op, a, b, eps, dn, fam, params, v, warn, leaves):
     """the clauses about the returned value of one call Integrate(f,a,b,eps,depth>=0 = dn), a != b.
     A-priori rounding slack (DESIGN 5.3), relative to h*max|f| per leaf and summed over the leaves (sum h = |b-a|):
@@ -1175,6 +1209,20 @@ def value_preds(op, a, b, eps, dn, fam, params, v, warn, leaves):
         slack = (64 + 2 * dn) * EPS * wd * fmax * (1 + kappa) + 16 * EPS * abs(I) * (1 + kappa) + inh * fmax
         if not warn and not (abs(v - I) <= 4 * abs(eps) + slack):
             out.append((op + ":error-bound", f"{fam} {params}: |result - integral| = {abs(v - I)!r} > 4*|eps| + rounding = {4 * abs(eps) + slack!r} (result {v!r}, integral {I!r}, no warning)"))
+        # C03_error_bound_any_depth: with or without the warning |result - integral| <= 4|eps| + |b-a|^5 m / (14400 16^depth), m = min|f4|
+        # (here the larger max|f4| is used, a weaker but equally a-priori bound)
+        M4 = f4max(fam, params, lo, hi)
+        if warn and M4 == M4 and M4 != math.inf:
+            # C03_sufficient_depth_no_warning: a panel of width w = |b-a|/2^depth has |S2 - S| <= w^5 max|f4| / 720; when that (doubled, plus the
+            # rounding of S2 - S on such a panel: panel rule and abscissae 64 eps w max|f| (1+kappa), inherited estimate 2 eps X max|f|) stays
+            # below the tolerance 15 |eps| / 2^depth in force there, no panel can be forced with a failing test: the warning must not appear
+            w = wd / 2.0 ** dn
+            dmax = 2 * (w ** 5 * M4 / 720.0) + 64 * EPS * w * fmax * (1 + kappa) + 2 * EPS * X * fmax
+            if dmax <= 15 * abs(eps) / 2.0 ** dn:
+                out.append((op + ":warning-unjustified", f"{fam} {params}: non-convergence warning although every panel of width |b-a|/2^depth = {w!r} has |S2-S| <= {dmax!r} <= 15|eps|/2^depth = {15 * abs(eps) / 2.0 ** dn!r}"))
+            forced = wd ** 5 * M4 / (14400.0 * 16.0 ** dn) * (1 + 1e-9)
+            if not (abs(v - I) <= 4 * abs(eps) + forced + slack):
+                out.append((op + ":error-bound-forced", f"{fam} {params}: |result - integral| = {abs(v - I)!r} > 4*|eps| + |b-a|^5 max|f4| / (14400*16^depth) + rounding = {4 * abs(eps) + forced + slack!r} (result {v!r}, integral {I!r}, warning raised)"))
     return out
 
 
